@@ -147,6 +147,8 @@ def merge(a, b):
 
 
 class Program:
+    FILES, BASE, MINFILES, APP = FILES, "radicale/storage", 12, False
+
     def __init__(self, repo):
         self.repo = repo
         self.funcs = {}      # key -> (file, qual, node)
@@ -160,12 +162,12 @@ class Program:
         self.pret, self.pyld, self.pattr = {}, {}, {}
         self.record = False
         self.trees = []
-        for pat in FILES:
+        for pat in self.FILES:
             for path in sorted(glob.glob(os.path.join(repo, pat))):
                 with open(path) as fh:
-                    self.trees.append((os.path.relpath(path, os.path.join(repo, "radicale/storage")), ast.parse(fh.read())))
-        if len(self.trees) < 12:
-            raise Unsupported("storage sources not found")
+                    self.trees.append((os.path.relpath(path, os.path.join(repo, self.BASE)), ast.parse(fh.read())))
+        if len(self.trees) < self.MINFILES:
+            raise Unsupported("sources not found below %s" % self.BASE)
         for fname, tree in self.trees:
             self.collect(fname, tree, "")
 
@@ -204,7 +206,8 @@ class Program:
 
     # ---- whole-program fixpoint
     def run(self):
-        self.check_pins()
+        if not self.APP:
+            self.check_pins()
         prev = None
         for rnd in range(10):
             self.calls, self.sites = {}, []
@@ -239,7 +242,9 @@ class Program:
         public = not fn.name.startswith("_")
         flag = self.flag_of(fn)
         for p in self.params(fn):
-            if flag and p == flag[0]:
+            if self.APP:
+                st.assign(p, ("param", "do_*" if fn.name.startswith("do_") else key, p))
+            elif flag and p == flag[0]:
                 st.assign(p, unk("flag"))
             elif public:
                 st.assign(p, ("pub", p))
@@ -357,6 +362,20 @@ class Program:
         if isinstance(s, ast.AugAssign):
             self.ev(s.value, st, ctx)
             self.bind(s.target, unk("augmented assignment"), st, ctx)
+            return st
+        if self.APP and isinstance(s, ast.If) and not s.orelse and all(
+                isinstance(b_, ast.Expr) and isinstance(b_.value, ast.Call) and isinstance(b_.value.func, ast.Attribute)
+                and getattr(b_.value.func.value, "id", None) == "logger" for b_ in s.body[:-1]) and isinstance(s.test, ast.BoolOp) \
+                and isinstance(s.test.op, ast.And) and len(s.test.values) == 2 and isinstance(s.test.values[0], ast.Name) \
+                and isinstance(s.test.values[1], ast.UnaryOp) and isinstance(s.test.values[1].op, ast.Not) \
+                and isinstance(s.test.values[1].operand, ast.Call) and isinstance(s.test.values[1].operand.func, ast.Attribute) \
+                and s.test.values[1].operand.func.attr == "is_safe_path_component" \
+                and [getattr(a, "id", None) for a in s.test.values[1].operand.args] == [s.test.values[0].id] \
+                and isinstance(s.body[-1], ast.Assign) and len(s.body[-1].targets) == 1 \
+                and getattr(s.body[-1].targets[0], "id", None) == s.test.values[0].id \
+                and isinstance(s.body[-1].value, ast.Constant) and s.body[-1].value.value == "":
+            # if v and not is_safe_path_component(v): v = ""      afterwards v is "" or a safe component
+            st.assign(s.test.values[0].id, either(("lit", ""), ("safecomp",)))
             return st
         if isinstance(s, ast.If):
             a, b = self.cond(s.test, st, ctx)
@@ -514,6 +533,8 @@ class Program:
             return st.env.get(n.id, unk("name %s" % n.id))
         if isinstance(n, ast.Attribute):
             base = self.ev(n.value, st, ctx)
+            if self.APP:
+                return self.app_attribute(n, base)
             if n.attr == "name" and base == ("scanentry",):
                 return ("scan",)
             if n.attr in ("path", "_path"):
@@ -531,8 +552,19 @@ class Program:
             a, b = self.cond(n.test, st, ctx)
             return either(self.ev(n.body, a, ctx), self.ev(n.orelse, b, ctx))
         if isinstance(n, ast.BoolOp):
+            if self.APP:
+                out = ("bot",)
+                for v in n.values:
+                    out = either(out, self.ev(v, st, ctx))
+                return out
             self.cond(n, st, ctx)
             return unk("boolean")
+        if self.APP and isinstance(n, ast.Subscript) and isinstance(n.slice, ast.Slice) and n.slice.upper is None and n.slice.step is None:
+            if n.slice.lower is not None:
+                self.ev(n.slice.lower, st, ctx)
+            return ("suffix", self.ev(n.value, st, ctx))
+        if self.APP and isinstance(n, ast.BinOp) and isinstance(n.op, ast.Mod) and isinstance(n.left, ast.Constant) and n.left.value == "/%s/":
+            return ("userpath", self.ev(n.right, st, ctx))
         if isinstance(n, (ast.GeneratorExp, ast.ListComp, ast.SetComp)):
             inner = st.copy()
             for g in n.generators:
@@ -596,6 +628,11 @@ class Program:
         def evargs():
             return [self.ev(a, st, ctx) for a in args], {k: self.ev(v, st, ctx) for k, v in kw.items()}
 
+        if self.APP:
+            r = self.app_call(n, st, ctx, f, dotted, name, args, kw, evargs)
+            if r is not None:
+                return r
+            return self.generic_call(n, st, ctx, f, dotted, name, args, kw, evargs)
         # --- path constructors
         if dotted == ["os", "path", "join"]:
             vals, _ = evargs()
@@ -690,9 +727,19 @@ class Program:
         if name in REVIEWED_CALLS:
             evargs()
             return ("reviewed", REVIEWED_CALLS[name])
+        return self.generic_call(n, st, ctx, f, dotted, name, args, kw, evargs)
+
+    def generic_call(self, n, st, ctx, f, dotted, name, args, kw, evargs):
         # --- calls of scanned functions: interprocedural entries
         target = None
-        if name == "_collection_class":
+        shift = 0
+        if self.APP and name in self.funcs and self.funcs[name] and (len(dotted) == 1 or dotted[0] == "self") and not name.startswith("do_"):
+            target = name
+        elif self.APP and name == "Access":
+            target = "__init__/3"
+        elif self.APP:
+            pass
+        elif name == "_collection_class":
             target, shift = "__init__/3", 0
         elif name == "__init__" and isinstance(f, ast.Attribute) and isinstance(f.value, ast.Call):
             target, shift = "__init__/%d" % (len(args) + len(kw)), 0
@@ -704,7 +751,12 @@ class Program:
             if isinstance(f, ast.Attribute):
                 self.ev(f.value, st, ctx)
             if any(isinstance(a, ast.Starred) for a in args):
-                raise Unsupported("%s:%d: *args in a call of %s" % (ctx["qual"], n.lineno, name))
+                if not self.APP:
+                    raise Unsupported("%s:%d: *args in a call of %s" % (ctx["qual"], n.lineno, name))
+                for _fname, _q, fn in self.funcs[target]:
+                    for p in self.params(fn):
+                        self.call_entry(target, p, unk("*args"), st)
+                return either(self.pret.get(target, ("bot",)), self.pyld.get(target, ("bot",)))
             for _fname, _q, fn in self.funcs[target]:
                 ps = self.params(fn)
                 flag = self.flag_of(fn)
@@ -799,6 +851,137 @@ def coq(t):
     return "(PUnknown %s)" % q("value of kind " + k)
 
 
+
+# ================================================================= the application side
+# Every call in radicale/app/*.py of a storage entry point that takes a path or a name, with the way the string was
+# obtained.  role: "path" (discover, create_collection, acquire_lock(path=)), "name" (upload, delete, move, get_multi),
+# "token" (sync: any text, validated by the storage, C06_token).
+ENTRY = {"discover": (0, "path", "path"), "create_collection": (0, "href", "path"), "upload": (0, "href", "name"),
+         "delete": (0, "href", "name"), "move": (2, "to_href", "name"), "get_multi": (0, "hrefs", "name"),
+         "sync": (0, "old_token", "token")}
+STORAGE_ATTRS = {"href", "uid", "etag"}            # attributes only storage objects have
+OWN_PATH_RECEIVERS = {"access", "self"}            # receivers whose .path / .parent_path is the application's own attribute
+
+
+class AppProgram(Program):
+    FILES, BASE, MINFILES, APP = ["radicale/app/*.py"], "radicale/app", 10, True
+
+    def app_attribute(self, n, base):
+        if n.attr in STORAGE_ATTRS:
+            return ("fromstorage",)
+        if n.attr in ("path", "parent_path"):
+            if isinstance(n.value, ast.Name) and n.value.id in OWN_PATH_RECEIVERS:
+                return self.pattr.get(n.attr, ("bot",))
+            return ("fromstorage",) if n.attr == "path" else unk("attribute parent_path of another object")
+        return unk("attribute %s" % n.attr)
+
+    def app_call(self, n, st, ctx, f, dotted, name, args, kw, evargs):
+        if name in ("sanitize_path",):
+            evargs()
+            return ("san",)
+        if name == "strip_path" and len(args) == 1:
+            return ("strip", evargs()[0][0])
+        if name == "unstrip_path" and args:
+            return ("unstrip", evargs()[0][0])
+        if dotted[:1] == ["posixpath"] and name in ("dirname", "basename") and len(args) == 1:
+            return ("pdir" if name == "dirname" else "pbase", evargs()[0][0])
+        if dotted == ["posixpath", "join"] and len(args) == 2:
+            vals, _ = evargs()
+            return ("pjoin", vals[0], vals[1])
+        if name == "name_from_path":
+            evargs()
+            return ("namefp",)
+        if name == "get" and dotted[-2:-1] == ["configuration"] and len(args) == 2:
+            evargs()
+            return ("config",)
+        if name == "items" and not args and isinstance(f, ast.Attribute) and self.ev(f.value, st, ctx) == ("config",):
+            return ("tup", (("config",), ("config",)))
+        if dotted == ["getattr"] and len(args) >= 2 and isinstance(args[1], ast.BinOp) and isinstance(args[1].left, ast.Constant) \
+                and args[1].left.value == "do_%s":
+            evargs()
+            return ("dofn",)
+        if isinstance(f, ast.Name) and st.env.get(f.id) == ("dofn",):
+            vals, _ = evargs()
+            if len(vals) != 4 or kw:
+                raise Unsupported("%s:%d: the gate calls the handler with another signature" % (ctx["qual"], n.lineno))
+            self.call_entry("do_*", "path", vals[2], st)
+            self.call_entry("do_*", "user", vals[3], st)
+            return unk("response")
+        if isinstance(f, ast.Attribute) and name in ENTRY:
+            pos, kwname, role = ENTRY[name]
+            vals, kws = evargs()
+            self.ev(f.value, st, ctx)
+            v = vals[pos] if pos < len(vals) else kws.get(kwname)
+            if v is None:
+                v = ("none",) if name in ("sync", "delete") else unk("argument not found")
+            self.site(name + ":" + role, n, v, st, ctx)
+            return ("storageobj",)
+        if isinstance(f, ast.Attribute) and name == "acquire_lock":
+            vals, kws = evargs()
+            if "path" in kws:
+                self.site("acquire_lock:path", n, kws["path"], st, ctx)
+            if len(vals) > 2:
+                self.site("acquire_lock:path", n, vals[2], st, ctx)
+            return unk("lock")
+        if len(dotted) == 1 and name in ("next", "iter", "list", "sorted", "set", "cast") and args:
+            vals, _ = evargs()
+            return vals[-1] if name == "cast" else vals[0]
+        return None
+
+
+def acoq(t):
+    k = t[0]
+    one = {"strip": "AStrip", "unstrip": "AUnstrip", "pdir": "ADirname", "pbase": "ABasename", "suffix": "ASuffix", "userpath": "AUserPath"}
+    if k == "san":
+        return "ASan"
+    if k in one:
+        return "(%s %s)" % (one[k], acoq(t[1]))
+    if k in ("pjoin", "cat"):
+        return "(%s %s %s)" % ("AJoin" if k == "pjoin" else "ACat", acoq(t[1]), acoq(t[2]))
+    if k == "either":
+        return "(AEither %s %s)" % (acoq(t[1]), acoq(t[2]))
+    if k == "param":
+        return "(AParam %s %s)" % (q(t[1]), q(t[2]))
+    if k == "fromstorage" or k == "storageobj":
+        return "AFromStorage"
+    if k == "namefp":
+        return "ANameFromPath"
+    if k == "none":
+        return "ANone"
+    if k == "safecomp":
+        return "ASafeComp"
+    if k == "config":
+        return "AConfig"
+    if k == "lit" and all(31 < ord(c) < 127 for c in t[1]):
+        return "(ALit %s)" % q(t[1])
+    if k == UNK:
+        return "(AUnknown %s)" % q(str(t[1])[:70])
+    return "(AUnknown %s)" % q("value of kind " + k)
+
+
+def app_table(repo):
+    prog = AppProgram(repo)
+    prog.run()
+    sites = sorted(set(prog.sites), key=lambda s_: (s_[0], s_[3], s_[2], repr(s_[4])))
+    need, todo, entries = set(), set(), {}
+    for s_ in sites:
+        params_of(s_[4], todo)
+    while todo:
+        fx = todo.pop()
+        if fx in need:
+            continue
+        need.add(fx)
+        entries[fx] = list(prog.calls.get(fx, []))
+        for t in entries[fx]:
+            params_of(t, todo)
+    calls = []
+    for fx in sorted(need):
+        for t in entries[fx]:
+            if (fx[0], fx[1], t) not in calls and t != ("param", fx[0], fx[1]):
+                calls.append((fx[0], fx[1], t))
+    return calls, sites
+
+
 HEADER = """(* GENERATED by /verif/translate/t_c06sites.py from radicale/storage/{multifilesystem/*.py,multifilesystem_nolock.py,__init__.py}
    -- do not edit.  Regenerated from /repo's working tree on every check run (tie T). *)
 From Coq Require Import List String NArith.
@@ -883,9 +1066,19 @@ def generate(repo, outdir):
             "  (%s, %s, %s)" % (q(f), q(x), coq(t)) for f, x, t in calls) + "\n].\n\n"
         text += "Definition sites : list site := [\n" + ";\n".join(
             "  mkSite %s %s %s %d%%N %s" % (q(f), q(fn), q(sink), line, coq(t)) for f, fn, sink, line, t in sites) + "\n].\n"
+        acalls, asites = app_table(repo)
+        if len(asites) < 15:
+            raise Unsupported("only %d application sites found" % len(asites))
+        text += "\nDefinition app_calls : list (string * string * aprov) := [\n" + ";\n".join(
+            "  (%s, %s, %s)" % (q(f), q(x), acoq(t)) for f, x, t in acalls) + "\n].\n\n"
+        text += "Definition app_sites : list asite := [\n" + ";\n".join(
+            "  mkASite %s %s %s %s %d%%N %s" % (q(f), q(fn), q(sink.split(":")[0]), {"path": "RPath", "name": "RName", "token": "RToken"}[sink.split(":")[1]],
+                                           line, acoq(t)) for f, fn, sink, line, t in asites) + "\n].\n"
     except (Unsupported, SyntaxError, OSError) as e:
         text = HEADER + "(* translation FAILED: %s *)\nDefinition calls : list (string * string * prov) := [].\n" \
                         "Definition sites : list site := [mkSite \"\" \"\" \"translation failed\" 0%%N (PUnknown \"translation failed\")].\n" \
+                        "Definition app_calls : list (string * string * aprov) := [].\n" \
+                        "Definition app_sites : list asite := [mkASite \"\" \"\" \"translation failed\" RPath 0%%N (AUnknown \"translation failed\")].\n" \
             % str(e).replace("*)", "* )")
         _write(os.path.join(outdir, mod + ".v"), text)
         return {mod: str(e)}
@@ -918,5 +1111,12 @@ if __name__ == "__main__":
         print("--- calls")
         for f, x, t in calls:
             print(f, x, coq(t))
+        print("=== app")
+        acalls, asites = app_table(repo)
+        for s in asites:
+            print(s[0], s[1], s[2], s[3], acoq(s[4]))
+        print("--- app calls")
+        for f, x, t in acalls:
+            print(f, x, acoq(t))
     else:
         print(generate(repo, sys.argv[2] if len(sys.argv) > 2 else "/tmp/c06gen"))
